@@ -16,7 +16,7 @@ Section LedgerInv.
   Definition SP (st : est) : Prop := spanok (s_led st).
 
   Lemma on_done_SP d r st : SP st -> SP (on_done o d r st).
-  Proof. unfold SP, on_done. cbn. destruct (is_wfr o && negb (eres_is_ok r)); [apply spanok_enq|auto]. Qed.
+  Proof. unfold SP, on_done. cbn. auto. Qed.
 
   Lemma fire_SP r st d : SP st -> SP (fire o r st d).
   Proof.
@@ -51,7 +51,7 @@ Section LedgerInv.
     intros H. unfold consume. destruct (batch_cfg o) as [[mn mx]|]; [|exact H].
     destruct (s_cur st) as [[ci cd]|].
     - destruct (merge_split mx ci (Some (d_items d))) as [|first rest]; [now apply fire_SP|].
-      pose proof (with_ref_SP st d (first :: rest) H) as H1.
+      pose proof (with_ref_SP st d (if negb (1 <? Z.of_nat (length (first :: rest))) || negb (first =? ci) then first :: rest else rest) H) as H1.
       destruct ((1 <? Z.of_nat (length (first :: rest))) || (mn <=? first)); destruct rest;
         try destruct (last _ 0 <? mn); exact H1.
     - destruct (merge_split mx (d_items d) None) as [|a l]; [now apply fire_SP|].
@@ -103,7 +103,7 @@ Section LedgerInv.
 
   Lemma step_SP st op : SP st -> SP (step o st op).
   Proof.
-    intros H. destruct op as [n|ns|]; cbn [step].
+    intros H. destruct op as [n|ns| |ns]; cbn [step]; [| | |exact (fold_offer_SP ns st H)].
     - assert (H1 : SP (run_quiet o (offer o st n))) by (apply pump_SP, offer_SP, H).
       destruct (is_wfr o); [exact (pump_SP _ _ (flush_cur_SP _ H1))|exact H1].
     - apply pump_SP. exact (fold_offer_SP ns st H).
